@@ -164,7 +164,7 @@ def run(tier, replay_file=None):
     R.cov["end_round_histories"] = len(he)
     h2, _ = gen.histories("Abm", consts(8, 60, 8, '{"Create","Delete","SetState","SetVal","PlanSet","PlanDel","PlanEnd","PropW","Configure","Reset","RunStep","Run"}', runspecs=RUNSPECS,
                                        configs='{<< <<"a",2,2,5>>, <<"b",1,0>> >>, << <<"a",1,0>>, <<"b",2,2,0-4>> >>}'),
-                          20 if quick else 40, simulate=50 if quick else 1000, seed=common.seed() + 3, cache=False)
+                          20 if quick else 30, simulate=50 if quick else 500, seed=common.seed() + 3, cache=False)
     R.cov["bfs_histories"], R.cov["sim_histories"] = len(hs), len(h2)
     cells = 0
     for hist in hs + h2:
